@@ -25,6 +25,12 @@ pub struct Meta {
    /// free-form labels used for the evidence distribution
    #[serde(default)]
    pub labels: Vec<String>,
+   /// the harness feeds this variant the input rows in a different order
+   #[serde(default)]
+   pub permute_input: bool,
+   /// injective renaming of the constants applied to this variant ("big": c -> 1000 c + 7, "str": c -> "k<c>")
+   #[serde(default)]
+   pub val_map: Option<String>,
    /// set for committed replays of known findings: the group is run on `fixed_input` only
    #[serde(default)]
    pub finding_id: Option<String>,
